@@ -2,6 +2,10 @@ package main
 
 import (
 	"fmt"
+	"io/ioutil"
+	"os"
+	"path/filepath"
+	"strings"
 
 	"github.com/frankkopp/FrankyGo/internal/config"
 	"github.com/frankkopp/FrankyGo/internal/evaluator"
@@ -282,7 +286,78 @@ func c06(tier string, args []string) int {
 	run.AddEvals(searches)
 	run.Set("positions_per_config", len(fens))
 	c06Deep(run, tier, shard, n)
+	c06MateSuite(run, tier, shard, n)
 	return run.FinishWorker()
+}
+
+// c06MateSuite: the differential clause on the repository's own mate positions (forcing lines with captures, so that the
+// quiescence search sees mates beyond the horizon) at a depth where internal iterative deepening runs on hash moves of
+// earlier iterations: IID on (IIDDepth 3) and off, PVS on and off, hash table for ordering, quiescence - one root value.
+func c06MateSuite(run *vl.Run, tier string, shard, n int) {
+	repo := os.Getenv("VERIF_REPO")
+	if repo == "" {
+		repo = "/repo"
+	}
+	b, err := ioutil.ReadFile(filepath.Join(repo, "test/testdata/featuretests/mate_test_suite.epd"))
+	if err != nil {
+		run.Set("mate_suite", "not found: "+err.Error())
+		return
+	}
+	var fens []string
+	for _, l := range strings.Split(string(b), "\n") {
+		f := strings.Fields(l)
+		if len(f) < 6 || f[4] != "dm" || strings.TrimSuffix(f[5], ";") != "3" {
+			continue
+		}
+		if r, err := refchess.ParseFEN(strings.Join(f[:4], " ") + " 0 1"); err == nil && r.Valid() {
+			fens = append(fens, r.FEN())
+		}
+	}
+	count, depth := 4, 6
+	if tier == "thorough" {
+		count = len(fens)
+	}
+	for i, f := range fens {
+		if i >= count || i%n != shard || run.Expired() {
+			continue
+		}
+		var base Value
+		for mask := 0; mask < 4; mask++ {
+			cfg := soundCfg(0, true)
+			cfg["UseTT"], cfg["UseTTMove"], cfg["UseQSTT"] = true, true, true
+			cfg["UseIID"], cfg["UsePVS"] = mask&1 != 0, mask&2 != 0
+			cfg.apply()
+			config.Settings.Search.IIDDepth, config.Settings.Search.IIDReduction = 3, 2
+			s := search.NewSearch()
+			s.SetUciHandler(&capDriver{})
+			var res search.Result
+			msg, pan := vl.Guard(func() { res = runSearch(s, casePos(f), search.Limits{Depth: depth}) })
+			config.Settings.Search.IIDDepth, config.Settings.Search.IIDReduction = 6, 2
+			run.AddStates(1)
+			run.Count("mate_suite_searches", 1)
+			rep := map[string]interface{}{"kind": "search", "fen": f, "depth": depth, "config": fmt.Sprintf("quiescence, hash table for ordering, IID(depth 3)=%v PVS=%v, all else off", mask&1 != 0, mask&2 != 0)}
+			if pan {
+				run.Violate("search-panic", msg, rep)
+				continue
+			}
+			run.AddTransitions(int64(s.NodesVisited()))
+			if mask == 0 {
+				base = res.BestValue
+			} else if res.BestValue != base {
+				rep["value"], rep["plain_alphabeta_value"] = int(res.BestValue), int(base)
+				q := casePos(f)
+				ctx := &mmCtx{ev: evaluator.NewEvaluator()}
+				for k := 0; k < 10; k++ {
+					ctx.mg = append(ctx.mg, movegen.NewMoveGen())
+				}
+				if treeHasClamp(q, ctx.mg, 3, 0) {
+					run.Violate(keyClamp, whatClamp, rep)
+				} else {
+					run.Violate("quiescence-value-depends-on-sound-switches:deep:mate-score", fmt.Sprintf("depth %d root value %d, without IID/PVS %d", depth, res.BestValue, base), rep)
+				}
+			}
+		}
+	}
 }
 
 // c06Deep: the differential clause at a depth where mate-distance bounds matter (forced mates of several lengths in
